@@ -24,9 +24,144 @@ def judge(graph, ex, case, ctx):
 
 def run(ctx):
     ginspect.run_graph_property(ctx, "C07", judge)
+    run_generated_suites(ctx)
+
+
+# ---------------------------------------------------------------------------
+# oracle A: generated suites whose setup DAG is known
+
+
+def observed_graph(ex, worker):
+    nodes, edges, duplicates = set(), set(), []
+    entries = {k: v for k, v in ex["nodes"].items() if k != "__duplicates__"}
+
+    def key_of(entry):
+        part = entry["setless"].split(".vms.")[0]
+        if part.startswith("original.unattended_install"):
+            part = "original.unattended_install"
+        return (part, tuple(entry["vms"]))
+
+    for entry in entries.values():
+        if entry["flat"] or entry["shared_root"] or entry["clones"] or entry["nets"] != worker:
+            continue
+        key = key_of(entry)
+        if key in nodes:
+            duplicates.append(key)
+        nodes.add(key)
+        for parent_name, objects in entry["parents"].items():
+            parent = entries.get(parent_name)
+            if parent is None or parent["flat"] or parent["shared_root"]:
+                continue
+            for long_suffix in objects:
+                vm = long_suffix.split("_")[-1] if "_" in long_suffix else long_suffix
+                edges.add((key, key_of(parent), vm))
+    return nodes, edges, duplicates
+
+
+def check_generated(case, scratch, also=None, compare=True):
+    import os
+    from vlib import g2, env, sim as simmod, e1
+    from vlib.core import Violation
+    from avocado.core.settings import settings
+
+    simmod.setup()
+    default_suite = settings.as_dict().get("i2n.common.suite_path")
+    dest = os.path.join(scratch, "suite-" + str(abs(hash(str(case))) % 10 ** 10))
+    g2.write_suite(case["dag"], env.REPO, dest)
+    g2.use_suite(dest)
+    try:
+        scenario = simmod.Scenario("leaves", dict(e1.DEFAULT_VMS), case["nets"], lazy=case["lazy"], suite=dest)
+        try:
+            if case["lazy"]:
+                run = simmod.Sim(scenario, run_params={"test_timeout": 10}, durations=["0.01T"], outcomes=["PASS"], scratch=scratch)
+                run.run()
+                if run.error is not None:
+                    raise run.error
+                graph = run.graph
+            else:
+                graph, swarms = simmod.build_graph(scenario)
+        except Exception as error:
+            raise Violation({"oracle": "generated-suite-parse-raises", "error": type(error).__name__,
+                             "where": ginspect._where(error)}, f"{error!r}"[:1500], case)
+        ex = ginspect.export(graph)
+        if also is not None:
+            for violation in also(graph, ex, case):
+                raise violation
+        expected_nodes, expected_edges = g2.expected_graph(case["dag"])
+        if not compare:
+            return any(g[0] == "group" and g[2] is None for grp in case["dag"]["groups"] for g in grp["gets"].values()), len(expected_nodes)
+        clones = False
+        for worker in case["nets"].split():
+            nodes, edges, duplicates = observed_graph(ex, worker)
+            if case["lazy"]:
+                # a worker only expands what it reached; the union over workers is compared below
+                continue
+            if duplicates:
+                raise Violation({"oracle": "generated-suite", "kind": "duplicated-node"}, f"{worker}: {duplicates}", case)
+            if nodes != expected_nodes:
+                kind = "missing-node" if expected_nodes - nodes else "spurious-node"
+                raise Violation({"oracle": "generated-suite", "kind": kind},
+                                f"{worker}: missing {sorted(expected_nodes - nodes)}, spurious {sorted(nodes - expected_nodes)}", case)
+            if edges != expected_edges:
+                kind = "missing-edge" if expected_edges - edges else "spurious-edge"
+                raise Violation({"oracle": "generated-suite", "kind": kind},
+                                f"{worker}: missing {sorted(expected_edges - edges)[:4]}, spurious {sorted(edges - expected_edges)[:4]}", case)
+        if case["lazy"]:
+            union_nodes, union_edges = set(), set()
+            for worker in case["nets"].split():
+                nodes, edges, duplicates = observed_graph(ex, worker)
+                if duplicates:
+                    raise Violation({"oracle": "generated-suite", "kind": "duplicated-node"}, f"{worker}: {duplicates}", case)
+                if nodes - expected_nodes or edges - expected_edges:
+                    raise Violation({"oracle": "generated-suite", "kind": "spurious-node" if nodes - expected_nodes else "spurious-edge"},
+                                    f"{worker}: spurious {sorted(nodes - expected_nodes)} {sorted(edges - expected_edges)[:4]}", case)
+                union_nodes |= nodes
+                union_edges |= edges
+            if union_nodes != expected_nodes or union_edges != expected_edges:
+                raise Violation({"oracle": "generated-suite", "kind": "missing-node" if expected_nodes - union_nodes else "missing-edge"},
+                                f"no worker expanded {sorted(expected_nodes - union_nodes)} {sorted(expected_edges - union_edges)[:4]}", case)
+        return any(g[0] == "group" and g[2] is None for grp in case["dag"]["groups"] for g in grp["gets"].values()), len(expected_nodes)
+    finally:
+        settings.update_option("i2n.common.suite_path", default_suite)
+        home = os.environ["HOME"]
+        for name in os.listdir(home):
+            if name.startswith("avocado_overwrite_") and name.endswith(".cfg"):
+                os.unlink(os.path.join(home, name))
+        simmod._GRAPHS.pop(simmod.Scenario("leaves", dict(e1.DEFAULT_VMS), case["nets"], lazy=case["lazy"], suite=dest).key(), None)
+        import shutil
+        shutil.rmtree(dest, ignore_errors=True)
+
+
+def run_generated_suites(ctx, also=None, compare=True, quick=96, thorough=3200):
+    from hypothesis import strategies as st
+    from vlib import g2
+
+    strategy = st.fixed_dictionaries({
+        "part": st.just("generated-suite"), "dag": g2.dags(),
+        "nets": st.sampled_from(["net1", "net1", "net1 net2", "net3 net4", "cluster1.net6 cluster2.net6"]),
+        "lazy": st.sampled_from([False, False, True]),
+    })
+
+    def body(case):
+        cloning, size = check_generated(case, ctx.scratch, also=also, compare=compare)
+        multi = any(len(g["vms"]) > 1 for g in case["dag"]["groups"])
+        chained = any(x[0] == "group" for g in case["dag"]["groups"] for x in g["gets"].values())
+        labels = ["A:generated-suite", f"A:nodes<={(size // 5 + 1) * 5}"] + (["A:cloning"] if cloning else []) \
+            + (["A:multi-vm"] if multi else []) + (["A:group-on-group"] if chained else []) + (["A:lazy"] if case["lazy"] else [])
+        ctx.case(case, cloning or multi or chained, labels)
+
+    ctx.hyp(strategy, body, ctx.budget(quick, thorough), name="generated-suites", shrink=(ctx.tier == "thorough"))
 
 
 def replay(ctx, case):
+    if isinstance(case, dict) and case.get("part") == "generated-suite":
+        from vlib.core import Violation
+
+        try:
+            check_generated(case, ctx.scratch)
+        except Violation as violation:
+            return [violation]
+        return []
     ginspect.simmod.setup()
     graph, error = ginspect.obtain_graph(case, ctx.scratch)
     ex = ginspect.export(graph)
